@@ -219,10 +219,35 @@ func init() {
 			ops, u := GenHistory(r, o)
 			c.Ops = addRestarts(r, ops, 0.05)
 			c.S["style"] = u.Style
+			if r.Float64() < 0.25 {
+				// fault configuration: even a call that fails part-way never changes a
+				// byte that is already on the tape (only the append-only clauses are judged)
+				for i := 1 + r.IntN(2); i > 0; i-- {
+					seam := []string{"drive.write", "drive.write", "index.any", "cache.write", "cache.read", "drive.read", "drive.openfile"}[r.IntN(7)]
+					f := Fault{Seam: seam, K: 1 + r.IntN(90)}
+					if seam == "drive.write" && r.IntN(2) == 0 {
+						f.Arg = 1 + r.IntN(500)
+					}
+					c.Faults = append(c.Faults, f)
+				}
+				// a restart may legitimately fail under a fault: no restart ops here
+				var keep []Op
+				for _, o := range c.Ops {
+					if o.K != "reopen" && o.K != "rebuild" {
+						keep = append(keep, o)
+					}
+				}
+				c.Ops = keep
+			}
 			return c
 		},
 		Eval: func(t *testing.T, c *Case, st *Stats, relax Relax) *Violation {
 			return RunSeq(t, c, st, relax, seqOpts{}, func(x *SeqCtx) *Violation {
+				faulty := len(c.Faults) > 0
+				if faulty {
+					x.W.Dev.ResetCounts()
+					x.W.Dev.SetPlan(c.Faults)
+				}
 				prev, _ := os.ReadFile(x.W.Drive)
 				if v := tapeAtRest(c.Prop, -1, prev); v != nil {
 					return v
@@ -236,24 +261,32 @@ func init() {
 					if !bytes.HasPrefix(cur, prev) {
 						return &Violation{Prop: c.Prop, Oracle: "not-append-only", Step: i, Detail: fmt.Sprintf("%s: tape before the call (%d bytes) is not a prefix of the tape after it (%d bytes)", op, len(prev), len(cur))}
 					}
-					if res.Class != "ok" && len(cur) != len(prev) && !strings.HasPrefix(op.K, "h.") && op.K != "writefile" {
+					if !faulty && res.Class != "ok" && len(cur) != len(prev) && !strings.HasPrefix(op.K, "h.") && op.K != "writefile" {
 						return &Violation{Prop: c.Prop, Oracle: "rejected-call-appends", Step: i, Detail: fmt.Sprintf("%s failed (%s) but appended %d bytes", op, res.Class, len(cur)-len(prev))}
 					}
 					if len(cur) > len(prev) {
 						grew++
-						if v := tapeAtRest(c.Prop, i, cur); v != nil {
-							return v
+						if !faulty {
+							if v := tapeAtRest(c.Prop, i, cur); v != nil {
+								return v
+							}
 						}
 					}
 					prev = cur
 					return nil
 				})
+				if faulty {
+					for s, n := range x.W.Dev.Fired {
+						st.Add("fired_"+s, int64(n))
+					}
+					st.Add("fault_configuration_runs", 1)
+				}
 				if v == nil && grew >= 2 {
 					st.Nontrivial(histKey(c))
 					st.Add("tape_bytes", int64(len(prev)))
 					st.Sample(fmt.Sprintf("cfg=%s style=%s tape=%dB ops:\n%s", c.Cfg, c.S["style"], len(prev), opsString(c.Ops)))
 				}
-				if v == nil && c.Tier == "thorough" && len(prev) > 0 {
+				if v == nil && c.Tier == "thorough" && len(prev) > 0 && !faulty {
 					v = gnuTarCheck(c.Prop, x.W.Drive, prev)
 					st.Add("gnu_tar_runs", 1)
 				}
